@@ -6,7 +6,8 @@ Bodies == UNION {[1..n -> Stmts] : n \in 0..MaxBody}
 Cases == {[kind |-> k, naming |-> n, props |-> p, body |-> b, want |-> Run(b, 1, <<>>), spans |-> Spans(k, n, p, b)] :
             k \in Kinds, n \in Namings, p \in PropKinds, b \in Bodies}
 Keep(c) == /\ WellFormed(c.kind, c.body)
-           /\ (c.kind = "eop" => c.props = "none")           \* the macro rejects properties with enter_on_poll
+           /\ (PerPoll(c.kind) => c.props = "none")
+           /\ (c.props = "closing" => Len(c.body) <= 1)           \* the macro rejects properties with enter_on_poll
            \* thin out: all bodies for the plain kinds with default naming, a few shapes for every other combination
            /\ (c.naming \in {"default_f", "short_f"} => c.props = "none" /\ Len(c.body) <= 1)
            /\ \/ (c.naming = "default" /\ c.props = "none")
